@@ -154,6 +154,7 @@ OClientCatchesUp == AtWend => ClientCatchesUp
 ODeltasContiguousOnDisk == AtWend => DeltasContiguousOnDisk
 ODeltasBoundedOnDisk == AtWend => DeltasBoundedOnDisk
 OInterruptedWriteNeverBlocks == AtWend => InterruptedWriteNeverBlocks
+ODeltasNeverExceedMaxNr == AtWend => DeltasNeverExceedMaxNrOnDisk
 
 NoPanic11 == l > 1 /\ Prev.ev \notin {"reset", "fs", "fserr", "fsfail", "wend"} => ~Prev.panic
 
